@@ -148,7 +148,9 @@ def gen_value(rng, dt):
     if dt == "u16":
         return Fraction(rng.choice([rng.randint(0, 1000), rng.randint(0, 12), 65535]))
     if dt in ("u32", "u64"):
-        return Fraction(rng.choice([rng.randint(0, 1000), rng.randint(0, 12), 2**31 + 5 if dt == "u64" else 70000]))
+        # values stay below 2^17 so that chains of up to four dyadic models remain exact in float64 (2^31+5 made the model-vs-code
+        # correspondence differ in the last bit on the unchanged tree for some seeds)
+        return Fraction(rng.choice([rng.randint(0, 1000), rng.randint(0, 12), 70000]))
     if dt == "i8":
         return Fraction(rng.randint(-128, 127))
     if dt in ("i16", "i32", "i64"):
